@@ -282,6 +282,68 @@ func runC18(c *Ctx) {
 		c.Floor("C18.retry-loop/returning-paths", nLoopRet, 2)
 		c.Floor("C18.retry-loop/early-returns", nEarly, 1)
 		c.Check(e.Truncated > 0, "C18.retry-loop", fnName(rcSub), "the loop continues after a failed attempt (retries indefinitely)", P.Pos(rcSub.Pos()), fmt.Sprintf("%d continuing paths at the unrolling bound", e.Truncated))
+		// with a live context (never cancelled, ctx.Err() == nil) the loop has no exit at all
+		{
+			isErrCall := func(v ssa.Value) bool {
+				call, ok := v.(*ssa.Call)
+				return ok && call.Call.IsInvoke() && call.Call.Method.Name() == "Err" && strings.HasPrefix(types.TypeString(call.Call.Value.Type(), nil), "context.")
+			}
+			live := &Atoms{Class: func(e *PPA, st *State, rv RV) string {
+				r := e.Resolve(st, rv)
+				if loadOfField(r.V, fDisc) {
+					return "HASDISC"
+				}
+				if loadOfField(r.V, fReset) {
+					return "HASRESET"
+				}
+				if b, ok := r.V.(*ssa.BinOp); ok && (b.Op == token.NEQ || b.Op == token.EQL) && isNilConst(b.Y) && isErrCall(e.Resolve(st, RV{r.F, b.X}).V) {
+					if b.Op == token.NEQ {
+						return "CTXERR"
+					}
+					return "!CTXERR"
+				}
+				return ""
+			}, Bool: map[string]bool{"HASDISC": true, "HASRESET": true, "CTXERR": false}}
+			le := &PPA{Cond: live.Cond, MaxVisits: mv, Watch: func(ev *Ev) bool { return isInner(ev) || isInit(ev) || strings.HasPrefix(ev.Label, "select:") }}
+			le.Run(rcSub)
+			c.Paths += len(le.Paths)
+			c.Scen++
+			bad := ""
+			for i := range le.Paths {
+				p := &le.Paths[i]
+				if p.End != "return" || !p.Has(isInner) {
+					continue
+				}
+				cancelled := p.Has(func(ev *Ev) bool { return strings.HasPrefix(ev.Label, "select:recv:") })
+				if !cancelled {
+					bad = "returns after a failed attempt although the context is live; path: " + p.String()
+				}
+			}
+			c.Check(bad == "", "C18.retry-loop", fnName(rcSub), "an unclosed client never leaves the retry loop", P.Pos(rcSub.Pos()), bad)
+		}
+		// Reconnect disables the backoff's give-up time (the library default ends the retries after 15 minutes)
+		if rc := P.Func("client", "Reconnect"); rc == nil {
+			c.Unresolved("C18.retry-loop", "client.Reconnect")
+		} else {
+			c.Analysed(fnName(rc))
+			okZero := false
+			instrs(rc, func(in ssa.Instruction) {
+				if st, ok := in.(*ssa.Store); ok {
+					if fl := fieldOf(st.Addr); fl != nil && fl.Name() == "MaxElapsedTime" {
+						if k, isK := constInt(st.Val); isK && k == 0 {
+							okZero = true
+						}
+					}
+				}
+				// or through the constructor option
+				if call, ok := in.(*ssa.Call); ok && strings.HasSuffix(calleeName(&call.Call), "backoff/v4.WithMaxElapsedTime") {
+					if k, isK := constInt(call.Call.Args[0]); isK && k == 0 {
+						okZero = true
+					}
+				}
+			})
+			c.Check(okZero, "C18.retry-loop", fnName(rc), "the backoff's MaxElapsedTime is set to 0 (retry indefinitely)", P.Pos(rc.Pos()), "without it NextBackOff returns Stop after the library's default give-up time")
+		}
 	}
 	// ---- run loop
 	{
